@@ -147,6 +147,9 @@ func genStoreCfg(rt *rapid.T) StoreCfg {
 	case "ds":
 		c.ChunkSize = rapid.SampledFrom([]int{0, 0, 0, 64, 256}).Draw(rt, "chunk")
 	}
+	if c.Kind != "mem" {
+		c.Instr = rapid.IntRange(0, 3).Draw(rt, "instr") == 3
+	}
 	return c
 }
 
